@@ -37,6 +37,99 @@ def _explore(body, atoms, **kw):
         ps.Origin = orig
 
 
+def explore_flags(body, mark_blocks=None, mark_edges=None, stop_blocks=(), start=0, max_states=400000):
+    """Path exploration that follows the VALUES of the body's boolean locals instead of their names: a constant, a copy or a negation of a known value is
+    propagated; a switch on a known value takes one edge; a switch on an unknown boolean local teaches its value on each edge (also to the local it was copied /
+    negated from in the same block) until that local is assigned again or goes out of scope.  So `if a && !flag`, `let ok = !flag; if a && ok` and a renamed flag
+    are one and the same thing here.  Locals whose address is taken are not followed.  Returns [(block, marks dict, path)] for every Return / stop block reached;
+    crossing mark_blocks[name] / mark_edges[name] sets marks[name]."""
+    mark_blocks = mark_blocks or {}
+    mark_edges = mark_edges or {}
+    stop_blocks = set(stop_blocks)
+    isb = lambda l: body.locals[l] == 'bool'
+    escaped = set()
+    for blk in body.blocks:
+        for st in blk['s']:
+            rv = st.get('rv')
+            if rv and rv['k'] in ('ref', 'rawptr') and not rv['pl'].get('p'):
+                escaped.add(rv['pl']['l'])
+
+    def opl(o):
+        return o['pl']['l'] if o.get('k') in ('cp', 'mv') and not o['pl'].get('p') else None
+    out, seen, n = [], set(), 0
+    stack = [(start, (), (), (start,))]
+    while stack:
+        bb, facts, marks, path = stack.pop()
+        key = (bb, facts, marks)
+        if key in seen:
+            continue
+        seen.add(key)
+        n += 1
+        if n > max_states:
+            raise RuntimeError('flag exploration exceeded %d states in %s' % (max_states, body.id))
+        f = dict(facts)
+        m = set(marks) | set(k_ for k_, bs in mark_blocks.items() if bb in bs)
+        blk = body.blocks[bb]
+        src = {}      # bool local defined in this block as copy / negation of another local: local -> (source local, negated)
+        for st in blk['s']:
+            if 'dead' in st:
+                f.pop(st['dead'], None)
+                continue
+            rv = st.get('rv')
+            if rv is None:
+                continue
+            l = st['pl']['l']
+            if st['pl'].get('p'):
+                continue
+            f.pop(l, None)
+            src.pop(l, None)
+            for k_ in [k_ for k_, v_ in src.items() if v_[0] == l]:
+                del src[k_]
+            if not isb(l) or l in escaped:
+                continue
+            if rv['k'] == 'use' and rv['a'].get('k') == 'c' and rv['a'].get('int') in (0, 1):
+                f[l] = bool(rv['a']['int'])
+            elif rv['k'] == 'use' and opl(rv['a']) is not None:
+                src[l] = (opl(rv['a']), False)
+                if opl(rv['a']) in f:
+                    f[l] = f[opl(rv['a'])]
+            elif rv['k'] == 'un' and rv['op'] == 'Not' and opl(rv['a']) is not None:
+                src[l] = (opl(rv['a']), True)
+                if opl(rv['a']) in f:
+                    f[l] = not f[opl(rv['a'])]
+        t = blk['t']
+        if t['k'] == 'return' or bb in stop_blocks:
+            out.append((bb, dict((k_, True) for k_ in m), path))
+            continue
+        if t['k'] == 'call' and t.get('dest') and not t['dest'].get('p'):
+            f.pop(t['dest']['l'], None)
+        if t['k'] == 'switch' and t.get('onty') == 'bool' and opl(t['on']) is not None and opl(t['on']) not in escaped:
+            l = opl(t['on'])
+            edges = [(bool(v), tg) for v, tg in t['tg']]
+            edges.append((0 not in [v for v, _ in t['tg']], t['else']))
+            for val, tg in edges:
+                if l in f and f[l] != val:
+                    continue
+                f2 = dict(f)
+                f2[l] = val
+                x, v = l, val
+                while x in src and src[x][0] not in escaped and isb(src[x][0]):   # teach the value to the local(s) it was derived from
+                    x, v = src[x][0], (not v if src[x][1] else v)
+                    if x in f2 and f2[x] != v:
+                        f2 = None
+                        break
+                    f2[x] = v
+                if f2 is None:
+                    continue
+                m2 = m | set(k_ for k_, es in mark_edges.items() if (bb, tg) in es)
+                stack.append((tg, tuple(sorted(f2.items())), tuple(sorted(m2)), path + (tg,)))
+            continue
+        for s_ in body.succ(bb):
+            m2 = m | set(k_ for k_, es in mark_edges.items() if (bb, s_) in es)
+            stack.append((s_, tuple(sorted(f.items())), tuple(sorted(m2)), path + (s_,)))
+    return out
+
+
 def _false_edges_of_returned_bool(f, c):
     """Edges on which the bool that call `c` returned (directly or through `?`) is false.  Found on the fully expanded origin of each switch operand, so it makes
     no difference whether the result was bound to a named local first (`let existed = …?; if !existed`) or is tested in place (`if !…?`)."""
@@ -437,4 +530,52 @@ def run(ctx, prog):
     # ------------------------------------------------------------------ R6 the insert-time bound compares like with like
     from rules import C06 as _c06
     _c06.distance_scales(ctx, prog, 'C07.R6')
+    # ------------------------------------------------------------------ R7 a degraded answer is never stored
+    ctx.rule('C07.R7', 'a degraded answer is never stored: in each search entry point the conditional store is not reached on any path (path-sensitive, the values of the '
+                       'function\'s own boolean flags propagated) that recorded a tier failure (CircuitBreaker::record_failure: timeout, error, panic), found a circuit '
+                       'breaker open, or was refused a search worker permit. Such an answer lacks one tier\'s documents; stored, it is served as a CacheHit to the next '
+                       'identical search although no write happened and both tiers are healthy again — not a result a fresh search could return')
+    n_ev = {'tier_failed': 0, 'breaker_open': 0, 'shed': 0}
+    for k, c in enumerate(gen_sites):
+        b = c.body
+        root = prog.bodies.get(b.root, b)
+        failed = {x.bb: x for x in b.calls if x.callee and re.search(r'CircuitBreaker::record_failure$', x.callee)}
+        open_e, shed_e = {}, {}
+        for x in b.calls:
+            if x.callee and re.search(r'CircuitBreaker::is_closed$', x.callee):
+                for e in (flow.outcome_edges(b, x)[1] or []):
+                    open_e[e] = x
+            if x.callee and re.search(r'Semaphore::try_acquire(_owned)?$', x.callee):
+                for e in (flow.outcome_edges(b, x)[1] or []):
+                    shed_e[e] = x
+        n_ev['tier_failed'] += len(failed)
+        n_ev['breaker_open'] += len(set(open_e.values()))
+        n_ev['shed'] += len(set(shed_e.values()))
+        # the values of the function's boolean flags are followed along each path (explore_flags): nothing here depends on what the degradation marker is called
+        # or on how the guard in front of the store is spelled
+        terms = explore_flags(b, mark_blocks={'tier_failed': set(failed)}, mark_edges={'breaker_open': set(open_e), 'shed': set(shed_e)}, stop_blocks={c.bb})
+        arr = [t for t in terms if t[0] == c.bb]
+        bad = [t for t in arr if t[1].get('tier_failed') or t[1].get('breaker_open') or t[1].get('shed')]
+        why = ''
+        if bad:
+            path = bad[0][2]
+            ev = None
+            for a_, b_ in zip(path, path[1:]):
+                if a_ in failed:
+                    ev = 'the tier failure recorded at %s (CircuitBreaker::record_failure)' % failed[a_].loc
+                elif (a_, b_) in open_e:
+                    ev = 'the circuit breaker found open at %s' % open_e[(a_, b_)].loc
+                elif (a_, b_) in shed_e:
+                    ev = 'the worker permit refused at %s' % shed_e[(a_, b_)].loc
+                if ev:
+                    break
+            why = 'the store at %s is reached after %s: a partial answer (one tier missing) is stored and served as a cache hit; %d of %d abstract arrivals are degraded' % (
+                c.loc, ev or 'a degradation event', len(bad), len(arr))
+        k7 = sum(1 for x in ctx.instances if x.get('config') == ctx.config and x['rule'] == 'C07.R7' and x['key'].startswith('C07.R7 | %s | ' % root.short))
+        ctx.inst('C07.R7', root.short, 'conditional store #%d is not reached on a degraded path' % k7, bool(arr) and not bad,
+                 why or '%d abstract arrivals at the store; degradation events in this body: %d tier failures, %d breaker tests, %d permit requests — none on a path to the store' % (
+                     len(arr), len(failed), len(set(open_e.values())), len(set(shed_e.values()))))
+    ctx.floor('C07.R7', 'tier-failure records in the search entry points', n_ev['tier_failed'], 2, 'timed search: hot and cold tier (5 arms on the pinned tree)')
+    ctx.floor('C07.R7', 'circuit-breaker tests in the search entry points', n_ev['breaker_open'], 2, 'timed search: hot and cold breaker')
+    ctx.floor('C07.R7', 'permit requests in the search entry points', n_ev['shed'], 2, 'timed search: query permit, hot and cold worker permits')
     ctx.stat('functions_analysed', len(set(i['key'].split(' | ')[1] for i in ctx.instances)))
